@@ -102,6 +102,13 @@ type goPanicSig struct {
 
 type pathEnd struct{ reason string }
 
+// CrossQuery is a discharged assertion query kept for the cross-solver check.
+type CrossQuery struct {
+	F     *term.T
+	Res   smt.Result
+	Label string
+}
+
 // Violation describes a failed assertion (with a model when available).
 type Violation struct {
 	Label    string
@@ -187,6 +194,10 @@ type Results struct {
 	Samples     []string
 	Nontrivial  int
 	Syntactic   int // assertions decided by term normalisation (condition folded to true)
+	CrossSample   []CrossQuery
+	CrossChecked  int
+	CrossDisagree int
+	CrossUnknown  int
 	Funcs       map[string]int
 	FuncPtr     map[*ssa.Function]int
 	Stubs       map[string]int
